@@ -552,7 +552,7 @@ func (e *engine) doOp(op string) {
 		if rw.Code >= 200 && rw.Code <= 299 {
 			s.trace = append(s.trace, "API=0")
 		} else {
-			s.trace = append(s.trace, "API=http")
+			s.trace = append(s.trace, "API=1")
 		}
 	case "adv":
 		s.now += atoi64(f[1])
